@@ -626,6 +626,19 @@ func normalizeSelfClosingVoidTags(b []byte) []byte {
 
 // parseNode recursively parses XML nodes
 func parseNode(decoder *xml.Decoder, start xml.StartElement, lookup *lineLookup, startOffset int64, content []byte) (*MJMLNode, error) {
+	return parseNodeAtDepth(decoder, start, lookup, startOffset, content, 0)
+}
+
+// maxNestingDepth bounds element nesting. parseNodeAtDepth recurses once per nesting level, and
+// a document nested millions of levels deep would otherwise exhaust the goroutine stack, which
+// is a fatal, unrecoverable error for the whole process.
+const maxNestingDepth = 1024
+
+func parseNodeAtDepth(decoder *xml.Decoder, start xml.StartElement, lookup *lineLookup, startOffset int64, content []byte, depth int) (*MJMLNode, error) {
+	if depth > maxNestingDepth {
+		return nil, fmt.Errorf("elements nested deeper than %d levels", maxNestingDepth)
+	}
+
 	node := &MJMLNode{
 		XMLName:      start.Name,
 		Attrs:        start.Attr,
@@ -684,7 +697,7 @@ func parseNode(decoder *xml.Decoder, start xml.StartElement, lookup *lineLookup,
 		case xml.StartElement:
 			flushSegment()
 			childOffset := decoder.InputOffset()
-			child, err := parseNode(decoder, t, lookup, childOffset, content)
+			child, err := parseNodeAtDepth(decoder, t, lookup, childOffset, content, depth+1)
 			if err != nil {
 				return nil, err
 			}
